@@ -117,6 +117,23 @@ func run(t *testing.T, typ uint16) {
 		// another key of the same type
 		otherKey := gen.OPRFKey(suiteOf[typ], append(gen.Seed().Draw(t, "otherkey"), 9))
 		check(t, s, newVerifier(typ, otherKey), tok, "other-key", honest)
+		// another key of the same type whose key id ends in the SAME byte (found by derivation), used after the first issuer has verified
+		base := gen.Seed().Draw(t, "collideseed")
+		for c := 0; c < 4096; c++ {
+			k2 := gen.OPRFKey(suiteOf[typ], append(append([]byte{}, base...), byte(c), byte(c>>8), 7))
+			id2 := gen.OPRFKeyID(k2)
+			if id2[31] != sess.KeyID[31] || bytes.Equal(id2, sess.KeyID) {
+				continue
+			}
+			v2 := newVerifier(typ, k2)
+			check(t, s, v2, tok, "other-key-same-truncated-id", honest)
+			// and the colliding issuer's own token (built through circl) must be accepted by it and rejected by the first
+			in2 := gen.AuthInput(typ, tok.Nonce, sess.Challenge, id2)
+			own := tokens.Token{TokenType: typ, Nonce: tok.Nonce, Context: tok.Context, KeyID: id2, Authenticator: gen.VOPRFOutput(suiteOf[typ], k2, in2)}
+			check(t, s, v2, own, "colliding-issuer-own-token", honest)
+			check(t, s, v, own, "colliding-issuer-token-at-first-issuer", honest)
+			break
+		}
 		// the other issuer type, same scalar is meaningless across groups: use a fresh key; with and without type rewrite
 		xv := newVerifier(other, gen.OPRFKey(suiteOf[other], gen.Seed().Draw(t, "xkey")))
 		check(t, s, xv, tok, "other-type-issuer", honest)
@@ -138,17 +155,17 @@ func run(t *testing.T, typ uint16) {
 			check(t, s, v, ft, "authenticator-prefix", honest)
 		}
 		ft := tok
-		ft.Authenticator = append(append([]byte{}, tok.Authenticator...), rapid.SliceOfN(rapid.Byte(), 1, 8).Draw(t, "ext")...)
+		ft.Authenticator = append(append([]byte{}, tok.Authenticator...), gen.Bytes(t, 1, 8, "ext")...)
 		check(t, s, v, ft, "authenticator-extended", honest)
 		for i := 0; i < 6; i++ {
 			ft := tok
 			switch gen.Uniform(t, 3, "field") {
 			case 0:
-				ft.Nonce = rapid.SliceOfN(rapid.Byte(), 0, 40).Draw(t, "nonce")
+				ft.Nonce = gen.Bytes(t, 0, 40, "nonce")
 			case 1:
-				ft.Context = rapid.SliceOfN(rapid.Byte(), 0, 40).Draw(t, "ctx")
+				ft.Context = gen.Bytes(t, 0, 40, "ctx")
 			case 2:
-				ft.KeyID = rapid.SliceOfN(rapid.Byte(), 0, 40).Draw(t, "kid")
+				ft.KeyID = gen.Bytes(t, 0, 40, "kid")
 			}
 			check(t, s, v, ft, "field-replaced", honest)
 		}
